@@ -62,6 +62,19 @@ chk(
     "cross-configuration MIR comparison + provenance pairing table + lexical cfg confinement",
 )
 
+chk(
+    "C06",
+    "The signature contract is a decision table plus dominance facts, both read off the type-checked program: the 26 "
+    "registered (name, type) pairs and the Signature term each type builds are extracted from MIR and compared with the "
+    "specification table; validate(self.signature, args, ctx)? dominates every other call and Ok result in all 27 "
+    "evaluate impls that own a Signature; validate_arity is walked under all 6 orderings; is_valid and the Variable "
+    "accessors/predicates under all value kinds (exhaustive finite tables); per-position validation, InvalidType payload, "
+    "who-may-construct each RuntimeError kind, per-element type tests of the by-functions, the unknown-function branch and "
+    "the result kind of every builtin are decided structurally.",
+    "Trusted: the specification table transcribed in vlib/props/c06.py; std Option/Iterator::all/any semantics.",
+    "MIR table extraction + decision-tree walking over finite orderings + dominance + who-may-construct + return-tag analysis",
+)
+
 for pid in [f"C{n:02d}" for n in range(1, 19)]:
     if pid not in CHECKS and pid not in NOT_APPLICABLE:
         na(pid, "check not implemented yet in this revision of /verif (work in progress; see DESIGN.md §3)")
